@@ -499,7 +499,7 @@ private def tMv : Task :=
 private def prMv : Proj :=
   { base := [(0, [100, 47, 97, 46, 101]), (1, [101, 47, 97, 46, 101])], dirOf := [], dirLen := [], tasks := [tMv] }
 private def sMv : State := { State.empty with files := [(0, ⟨[7], 5⟩)] }
-private def env (n : Nat) : Env := ⟨n, true, none, none, false, true⟩
+private def env (n : Nat) : Env := ⟨n, true, none, none, false, true, false⟩
 
 /- the same two files below a task directory `sub/` (directory 0, prefix length 4): paths
 `sub/d/a.e`, `sub/e/a.e`, names `d/a.e`, `e/a.e` -/
